@@ -121,7 +121,7 @@ CLAIMS = {
    text="Theorems C19_bucket_bound / C19_window_bound (from ANY capped bucket state, any sequence of try_consume calls at monotone "
         "clock readings admits <= burst + rate*elapsed, over any window), C19_global_all_schedules (the never-refunded, mutex-"
         "protected global bucket obeys it under every interleaving), checkLimit_tenant_rel (sequential check_limit incl. the "
-        "refund path), C19_refund_restores, C19_no_spurious_refusal, C19_tenant_all_schedules (the tenant bucket, locked from consume to "
+        "refund path), C19_refund_restores, C19_no_spurious_refusal, C19_admitted_after_wait (from any bucket state, once (now-last)*rate >= one token the next call is admitted), C19_tenant_all_schedules (the tenant bucket, locked from consume to "
         "refund, sees atomic calls at monotone readings whatever the global bucket answers) and C19_prefix_refund_window (the "
         "pre-fix protocol admits burst+1 at one instant), C19_first_use_one_bucket + C19_first_use_private_buckets_exceed_burst "
         "(concurrent first requests of a tenant). Tie: the real RateLimiter runs under a "
